@@ -389,10 +389,11 @@ impl MemoryMappedInput {
 
     /// Reads a slice of bytes (zero-copy when possible)
     pub fn read_slice(&mut self, len: usize) -> Result<Vec<u8>> {
-        let end_pos = self.position + len;
-        if end_pos > self.file_size as usize {
-            return Err(ZiporaError::out_of_bounds(end_pos, self.file_size as usize));
-        }
+        // `len` usually comes from a length prefix in the file: position + len must not overflow
+        let end_pos = match self.position.checked_add(len) {
+            Some(end_pos) if end_pos <= self.file_size as usize => end_pos,
+            _ => return Err(ZiporaError::out_of_bounds(self.position.saturating_add(len), self.file_size as usize)),
+        };
 
         let data = match self.strategy {
             InputStrategy::BufferedIO => {
@@ -438,10 +439,11 @@ impl MemoryMappedInput {
 
     /// Reads a slice of bytes without copying (zero-copy, memory-mapped only)
     pub fn read_slice_zero_copy(&mut self, len: usize) -> Result<&[u8]> {
-        let end_pos = self.position + len;
-        if end_pos > self.file_size as usize {
-            return Err(ZiporaError::out_of_bounds(end_pos, self.file_size as usize));
-        }
+        // `len` usually comes from a length prefix in the file: position + len must not overflow
+        let end_pos = match self.position.checked_add(len) {
+            Some(end_pos) if end_pos <= self.file_size as usize => end_pos,
+            _ => return Err(ZiporaError::out_of_bounds(self.position.saturating_add(len), self.file_size as usize)),
+        };
 
         let slice = match self.strategy {
             InputStrategy::BufferedIO => {
@@ -481,10 +483,11 @@ impl MemoryMappedInput {
 
     /// Peeks at bytes without advancing the position (zero-copy when possible)
     pub fn peek_slice(&self, len: usize) -> Result<Vec<u8>> {
-        let end_pos = self.position + len;
-        if end_pos > self.file_size as usize {
-            return Err(ZiporaError::out_of_bounds(end_pos, self.file_size as usize));
-        }
+        // `len` usually comes from a length prefix in the file: position + len must not overflow
+        let end_pos = match self.position.checked_add(len) {
+            Some(end_pos) if end_pos <= self.file_size as usize => end_pos,
+            _ => return Err(ZiporaError::out_of_bounds(self.position.saturating_add(len), self.file_size as usize)),
+        };
 
         match self.strategy {
             InputStrategy::BufferedIO => {
@@ -520,10 +523,11 @@ impl MemoryMappedInput {
 
     /// Peeks at bytes without advancing the position (zero-copy, memory-mapped only)
     pub fn peek_slice_zero_copy(&self, len: usize) -> Result<&[u8]> {
-        let end_pos = self.position + len;
-        if end_pos > self.file_size as usize {
-            return Err(ZiporaError::out_of_bounds(end_pos, self.file_size as usize));
-        }
+        // `len` usually comes from a length prefix in the file: position + len must not overflow
+        let end_pos = match self.position.checked_add(len) {
+            Some(end_pos) if end_pos <= self.file_size as usize => end_pos,
+            _ => return Err(ZiporaError::out_of_bounds(self.position.saturating_add(len), self.file_size as usize)),
+        };
 
         match self.strategy {
             InputStrategy::BufferedIO => Err(ZiporaError::not_supported(
@@ -614,7 +618,10 @@ impl DataInput for MemoryMappedInput {
     }
 
     fn skip(&mut self, n: usize) -> Result<()> {
-        let new_pos = self.position + n;
+        let new_pos = self
+            .position
+            .checked_add(n)
+            .ok_or_else(|| ZiporaError::out_of_bounds(usize::MAX, self.file_size as usize))?;
         self.seek(new_pos)
     }
 }
